@@ -4,6 +4,8 @@ import (
 	"encoding/json"
 	"flag"
 	"fmt"
+	"io"
+	"log"
 	"os"
 	"os/exec"
 	"path/filepath"
@@ -24,6 +26,7 @@ func main() {
 		usage()
 	}
 	installHooks()
+	log.SetOutput(io.Discard) // the repository logs through the standard logger; keep it out of reports
 	switch os.Args[1] {
 	case "check":
 		if len(os.Args) < 4 {
